@@ -38,6 +38,21 @@ func runTTreeN(c *load.Ctx, r *report.RuleResult, maxN int) {
 	}
 	pos := c.Pos(feedLeaves.Pos())
 	valIface := litFeed.Signature.Results().At(0).Type().(*types.Slice).Elem()
+	nullT := namedType(c, pkgValidator, "nullValidator")
+	nullFeed := c.Func(pkgValidator, "nullValidator.feed")
+	mkValidatorOf := func(in *pe.Interp, vt *types.Named, tag string, parent pe.Value) pe.Value {
+		st := vt.Underlying().(*types.Struct)
+		sv := &pe.StructV{T: vt, F: make([]pe.Value, st.NumFields())}
+		for i := 0; i < st.NumFields(); i++ {
+			switch st.Field(i).Name() {
+			case "parent_":
+				sv.F[i] = parent
+			default:
+				sv.F[i] = pe.NewSym(tag+"."+st.Field(i).Name(), st.Field(i).Type())
+			}
+		}
+		return &pe.Iface{T: types.NewPointer(vt), V: &pe.Ptr{Obj: in.NewObj(vt, sv, tag), T: vt}}
+	}
 	mkValidator := func(in *pe.Interp, tag string, parent pe.Value) pe.Value {
 		st := litT.Underlying().(*types.Struct)
 		sv := &pe.StructV{T: litT, F: make([]pe.Value, st.NumFields())}
@@ -81,13 +96,20 @@ func runTTreeN(c *load.Ctx, r *report.RuleResult, maxN int) {
 		return nil, false
 	}
 	_ = valIface
+	if nullFeed != nil {
+		e.cfg.Intrinsics[nullFeed.String()] = e.cfg.Intrinsics[litFeed.String()]
+	}
 	type scenario struct {
 		n      int
 		shared bool // the candidates are alternatives of one value: they share one parent
+		null   bool // the last alternative is the null-only validator of a nullable type reference
 	}
-	scenarios := []scenario{{1, false}, {2, false}, {3, false}, {2, true}, {3, true}}
+	scenarios := []scenario{{1, false, false}, {2, false, false}, {3, false, false}, {2, true, false}, {3, true, false}}
+	if nullT != nil && nullFeed != nil {
+		scenarios = append(scenarios, scenario{2, true, true}, scenario{3, true, true})
+	}
 	if maxN >= 4 {
-		scenarios = append(scenarios, scenario{4, false}, scenario{4, true})
+		scenarios = append(scenarios, scenario{4, false, false}, scenario{4, true, false})
 		e.cfg.MaxPaths = 2000000
 		e.cfg.TotalFuel = 4000000000
 	}
@@ -116,7 +138,11 @@ func runTTreeN(c *load.Ctx, r *report.RuleResult, maxN int) {
 					parent = common
 				}
 				leaves.Keys = append(leaves.Keys, int64(i))
-				leaves.Vals = append(leaves.Vals, mkValidator(in, tag, parent))
+				if sc.null && i == n-1 {
+					leaves.Vals = append(leaves.Vals, mkValidatorOf(in, nullT, tag, parent))
+				} else {
+					leaves.Vals = append(leaves.Vals, mkValidator(in, tag, parent))
+				}
 			}
 			in.Store(in.FieldPtr(t, "leaves"), leaves)
 			in.Store(in.FieldPtr(t, "nextIndex"), int64(n))
@@ -147,6 +173,9 @@ func runTTreeN(c *load.Ctx, r *report.RuleResult, maxN int) {
 				}
 				sort.Strings(norm)
 				key = fmt.Sprintf("tree|alternatives=%d|%s", n, strings.Join(norm, ","))
+				if sc.null {
+					key = fmt.Sprintf("tree|alternatives=%d with the null of a nullable reference|%s", n, strings.Join(pat, ","))
+				}
 			}
 			if o.Undecided != "" {
 				r.Unk(key, pos, o.Undecided)
@@ -182,6 +211,10 @@ func runTTreeN(c *load.Ctx, r *report.RuleResult, maxN int) {
 				shown := pe.Show(o.PanicVal)
 				if n == 1 && !strings.Contains(shown, "error-of-l0") {
 					r.Bad(key, pos, "the single candidate's own error is not the one reported: "+shown)
+					continue
+				}
+				if n > 1 && strings.Contains(shown, "error-of-l") {
+					r.Bad(key, pos, "several candidates failed and one candidate's own error is reported: which one depends on the order in which the live candidates are walked (a map): "+shown)
 					continue
 				}
 				if n > 1 && !strings.Contains(shown, "DocumentError") {
